@@ -10,6 +10,7 @@ import (
 	"testing"
 
 	"github.com/advancedclimatesystems/gonnx/onnx"
+	"google.golang.org/protobuf/proto"
 	"gorgonia.org/tensor"
 	"pgregory.net/rapid"
 )
@@ -435,6 +436,65 @@ func TestC11(t *testing.T) {
 		ev.Case("C11", c.String(), nontrivial, cls...)
 		if v := c11Judge(c, res); v != "" {
 			rt.Fatalf("C11 violated by %v: %s", c, v)
+		}
+		// the result depends only on this call's inputs: a second request through the very same
+		// operator instance (same attributes, another shape / other values) must be answered like
+		// a first one
+		if c.valid && (c.op == "ConstantOfShape" || c.op == "Cast") && rapid.IntRange(0, 2).Draw(rt, "reuseInstance") == 0 {
+			var second c11Case
+			forceOp = c.op
+			for tries := 0; tries < 20; tries++ {
+				second = c11Gen(rt)
+				if second.valid && proto.Equal(second.node, c.node) {
+					break
+				}
+				second = c11Case{}
+			}
+			forceOp = ""
+			if second.node == nil && c.op == "ConstantOfShape" {
+				// same value attribute, the requested shape permuted (same rank and element count)
+				sh := f64s(c.ins[0])
+				rev := make([]int64, len(sh))
+				dims := make([]int, len(sh))
+				for i := range sh {
+					rev[i] = int64(sh[len(sh)-1-i])
+					dims[i] = int(rev[i])
+				}
+				w := cloneT(c.want)
+				if err := w.Reshape(dims...); err == nil {
+					second = c11Case{op: c.op, node: c.node, ins: []tensor.Tensor{mkT([]int{len(rev)}, rev)}, want: w, valid: true, mayRef: c.mayRef}
+				}
+			}
+			if second.node != nil {
+				op, err := getOperator(c.op)
+				if err == nil && op.Init(c.node) == nil {
+					apply := func(ins []tensor.Tensor) opResult {
+						var r opResult
+						func() {
+							defer func() {
+								if p := recover(); p != nil {
+									r.panicked, r.panicVal = true, p
+								}
+							}()
+							v, err := op.ValidateInputs(ins)
+							if err == nil {
+								v, err = op.Apply(v)
+							}
+							r.outs, r.err = v, err
+						}()
+						return r
+					}
+					first := apply(cloneTs(c.ins))
+					again := apply(cloneTs(second.ins))
+					ev.Class("C11", c.op+"-instance-reused")
+					if v := c11Judge(c, first); v != "" {
+						rt.Fatalf("C11 violated by %v: %s", c, v)
+					}
+					if v := c11Judge(second, again); v != "" {
+						rt.Fatalf("C11 violated by %v requested through the operator instance that had just answered %v: %s", second, c, v)
+					}
+				}
+			}
 		}
 		if rapid.IntRange(0, 4).Draw(rt, "modelLevel") == 0 {
 			mres := runSingleNodeModel(c.node, cloneTs(c.ins), 1)
